@@ -59,3 +59,51 @@ M.contract(P_SYM + ':_extract_symbol_name', params=dict(s=Str, start_idx=Nat),
                or not ident_char(s[start_idx + len(result):start_idx + len(result) + 1]),
            },
            raises_only=())
+
+
+# ------------------------------------------------------------------------------ symbol_syntax: whole-token references
+
+def ref_shaped(token):
+    """token is  @[ X ]@  for some string X (the two delimiters do not overlap)"""
+    return len(token) >= 4 and token.startswith('@[') and token.endswith(']@')
+
+
+M.contract(P_SYM + ':parse_symbol_reference__from_str', params=dict(token=Str), returns=Opt(Str),
+           raises={SingleInstructionInvalidArgumentException: {
+               'when': lambda token: ref_shaped(token) and not valid_name(token[2:len(token) - 2])}},
+           ensures={
+               'none-iff-not-a-reference': lambda token, result: (result is None) == (not ref_shaped(token)),
+               'name-of-the-reference': lambda token, result:
+               result is None or (token == render_ref(result) and valid_name(result)),
+           },
+           raises_only=())
+
+M.contract(P_SYM + ':parse_maybe_symbol_reference', params=dict(unquoted_token_str=Str), returns=Opt(Str),
+           ensures={
+               'none-iff-not-a-valid-reference': lambda unquoted_token_str, result:
+               (result is None) == (not (ref_shaped(unquoted_token_str)
+                                         and valid_name(unquoted_token_str[2:len(unquoted_token_str) - 2]))),
+               'name-of-the-reference': lambda unquoted_token_str, result:
+               result is None or (unquoted_token_str == render_ref(result) and valid_name(result)),
+           },
+           raises_only=())
+
+
+# ------------------------------------------------------------------------------ symbol_syntax: finding references
+
+FOUND = FixedList(Int, Str, Str, as_tuple=True)
+
+M.contract(P_SYM + ':_find_symbol_reference', params=dict(s=Str), returns=FOUND,
+           ensures={
+               'not-found-shape': lambda result: result[0] != -1 or (result[1] == '' and result[2] == ''),
+               'conservation': lambda s, result:
+               result[0] == -1 or (0 <= result[0] and s == s[:result[0]] + render_ref(result[1]) + result[2]),
+               'valid-name': lambda result: result[0] == -1 or valid_name(result[1]),
+           },
+           raises_only=())
+M.loop(P_SYM + ':_find_symbol_reference', 0,
+       invariant=lambda s, sym_ref_pos:
+       sym_ref_pos == -1 or (0 <= sym_ref_pos and sym_ref_pos + 2 <= len(s)
+                             and s[sym_ref_pos:sym_ref_pos + 2] == '@['),
+       modifies=dict(sym_ref_pos=Int, symbol_name='local', pos_after_symbol_name='local', rest='local'),
+       decreases=lambda s, sym_ref_pos: len(s) - sym_ref_pos if sym_ref_pos != -1 else -1)
